@@ -286,6 +286,14 @@ func randDomain(rng *rand.Rand) (float64, float64) {
 	default:
 		a, b = float64(rng.Intn(20)-10)/4, float64(rng.Intn(20)-10)/4
 	}
+	if rng.Intn(8) == 0 { // a narrow domain far from zero (width 1e-3 ... 1e-13 of its position)
+		c := logUniform(rng, 1e-6, 1e12) * float64(rng.Intn(2)*2-1)
+		w := math.Abs(c) * math.Pow(10, -float64(3+rng.Intn(11)))
+		a, b = c, c+w
+		if rng.Intn(2) == 0 {
+			a, b = math.Round(c), math.Round(c)+float64(1+rng.Intn(7))*math.Ldexp(1, -rng.Intn(4)) // whole-number ends
+		}
+	}
 	if rng.Intn(2) == 0 {
 		a, b = b, a
 	}
